@@ -189,6 +189,8 @@ g_typelib_get_dir_entry_by_name (GITypelib *typelib,
 
   dirindex = get_section_by_id (typelib, GI_SECTION_DIRECTORY_INDEX);
   n_entries = ((Header *)typelib->data)->n_local_entries;
+  if (n_entries == 0)
+    return NULL;
 
   if (dirindex == NULL)
     {
